@@ -66,6 +66,15 @@ func (inv *IndexInverted[T]) getSetCacheItem(value T, setBytes []byte) (*setCach
 	return item, nil
 }
 
+// Negative zero equals zero but has its own byte sortable key, we index both
+// as zero so a value maps to exactly one term.
+func canonical[T Invertable](v T) T {
+	if f, ok := any(v).(float64); ok && f == 0 {
+		return any(float64(0)).(T)
+	}
+	return v
+}
+
 type IndexChange[T Invertable] struct {
 	Id           uint64
 	PreviousData *T
@@ -97,6 +106,15 @@ func (inv *IndexInverted[T]) InsertUpdateDelete(ctx context.Context, in <-chan I
 // InsertUpdateDelete function. It performs the actual insert, update or delete
 // operation on the inverted index.
 func (inv *IndexInverted[T]) processChange(change IndexChange[T]) error {
+	// ---------------------------
+	if change.PreviousData != nil {
+		prev := canonical(*change.PreviousData)
+		change.PreviousData = &prev
+	}
+	if change.CurrentData != nil {
+		curr := canonical(*change.CurrentData)
+		change.CurrentData = &curr
+	}
 	// ---------------------------
 	switch {
 	case change.PreviousData == nil && change.CurrentData == nil:
@@ -169,6 +187,7 @@ func (inv *IndexInverted[T]) Search(query T, endQuery T, operator string) (*roar
 	inv.mu.Lock()
 	defer inv.mu.Unlock()
 	// ---------------------------
+	query, endQuery = canonical(query), canonical(endQuery)
 	queryKey, err := toByteSortable(query)
 	if err != nil {
 		return nil, fmt.Errorf("error converting value %v to search: %w", query, err)
